@@ -94,8 +94,8 @@ theorem bestIn_characterisation (parent : QName) (d : List Tester) :
 kept by code and Recommendation alike; the same parent without it: stripped.  `<a xml:space="preserve"><b
 xml:space="default"><c>`: the walk from `c` answers false, from `a` true. -/
 example :
-    shouldStrip (Sheet.mk [⟨"", "", true⟩] []).post (some ⟨⟨"", "b"⟩, true, []⟩) true = false
-      ∧ shouldStrip (Sheet.mk [⟨"", "", true⟩] []).post (some ⟨⟨"", "b"⟩, false, []⟩) true = true
+    shouldStrip (Sheet.mk [⟨"", "", true⟩] []).post (some ⟨⟨"", "b"⟩, true, [], []⟩) true = false
+      ∧ shouldStrip (Sheet.mk [⟨"", "", true⟩] []).post (some ⟨⟨"", "b"⟩, false, [], []⟩) true = true
       ∧ spacePreservedWalk [none, some false, some true] = false
       ∧ spacePreservedWalk [none, some true, some false] = true := by
   decide
@@ -104,20 +104,20 @@ example :
 the importing sheet's `*` (precedence) beats the import's `a` (priority): preserved; `b` is stripped. -/
 example :
     let s := Sheet.mk [⟨"", "", false⟩, ⟨"", "b", true⟩] [Sheet.mk [⟨"", "a", true⟩, ⟨"urn:u", "", true⟩] []]
-    shouldStrip s.post (some ⟨⟨"", "a"⟩, false, []⟩) true = false ∧ shouldStrip s.post (some ⟨⟨"", "b"⟩, false, []⟩) true = true
-      ∧ specStrip s (some ⟨⟨"", "b"⟩, false, []⟩) true = true := by
+    shouldStrip s.post (some ⟨⟨"", "a"⟩, false, [], []⟩) true = false ∧ shouldStrip s.post (some ⟨⟨"", "b"⟩, false, [], []⟩) true = true
+      ∧ specStrip s (some ⟨⟨"", "b"⟩, false, [], []⟩) true = true := by
   decide
 
 /-- **C13, observation.** Simulation of the strip-aware evaluator by the plain evaluator on the physically
 stripped tree: node-sets correspond under `Loc.strip`, other values are equal; `none` (outside the
 fragment) corresponds to `none`. -/
-theorem strip_simulation (sp : StripFn) (e : Expr) (c : Ctx) (hc : c.node.stripped sp = false) :
+theorem strip_simulation (sp : StripFn) (e : Expr) (c : Ctx) (hc : c.ok sp) :
     (e.eval sp c).map (Value.strip sp) = e.eval noStrip (c.strip sp) :=
   (eval_sim sp e c hc).1
 
 /-- No stripped text node is ever a member of a node-set the evaluator delivers. -/
-theorem results_never_stripped (sp : StripFn) (e : Expr) (c : Ctx) (hc : c.node.stripped sp = false)
-    (l : List Loc) (h : e.eval sp c = some (.ns l)) : ∀ x ∈ l, x.stripped sp = false :=
+theorem results_never_stripped (sp : StripFn) (e : Expr) (c : Ctx) (hc : c.ok sp)
+    (l : List XNode) (h : e.eval sp c = some (.ns l)) : ∀ x ∈ l, x.stripped sp = false :=
   (eval_sim sp e c hc).2 l h
 
 /-- string-values: the strip-aware string-value of a node is the plain string-value of the stripped node
@@ -126,7 +126,7 @@ theorem strVal_strip (sp : StripFn) (n : Node) : n.strVal sp = (n.strip sp).strV
   Node.strVal_strip sp n
 
 /-- What `xsl:value-of select="e"` prints is the same on both sides. -/
-theorem strip_simulation_string (sp : StripFn) (e : Expr) (c : Ctx) (hc : c.node.stripped sp = false) :
+theorem strip_simulation_string (sp : StripFn) (e : Expr) (c : Ctx) (hc : c.ok sp) :
     (e.eval sp c).map (Value.toStr sp) = (e.eval noStrip (c.strip sp)).map (Value.toStr noStrip) := by
   rw [← strip_simulation sp e c hc]
   cases h : e.eval sp c with
@@ -140,24 +140,24 @@ theorem strip_simulation_string (sp : StripFn) (e : Expr) (c : Ctx) (hc : c.node
 selects have been removed. -/
 theorem strip_simulation_stylesheet (s : Sheet) (e : Expr) (doc : Node) :
     let specSp : StripFn := fun pn d => specStrip s pn (isWsString d)
-    (e.eval (stripOf s.post) ⟨⟨doc, []⟩, 1, 1⟩).map (Value.toStr (stripOf s.post))
-      = (e.eval noStrip ⟨⟨doc.strip specSp, []⟩, 1, 1⟩).map (Value.toStr noStrip) := by
+    (e.eval (stripOf s.post) ⟨.node ⟨doc, []⟩, 1, 1, []⟩).map (Value.toStr (stripOf s.post))
+      = (e.eval noStrip ⟨.node ⟨doc.strip specSp, []⟩, 1, 1, []⟩).map (Value.toStr noStrip) := by
   intro specSp
   have hsp : stripOf s.post = specSp := by
     funext pn d
     exact shouldStrip_eq_spec s pn (isWsString d)
   rw [hsp]
-  exact strip_simulation_string specSp e ⟨⟨doc, []⟩, 1, 1⟩ rfl
+  exact strip_simulation_string specSp e ⟨.node ⟨doc, []⟩, 1, 1, []⟩ ⟨rfl, by simp⟩
 
 /-- non-vacuity and sensitivity: on `<a> <b/>x</a>` with `strip-space elements="a"`, `count(/a/node())` is 2
 with the strip-aware node test (3 without), and the stripped tree has 2 children. -/
 example :
     let sp : StripFn := stripOf [⟨"", "a", true⟩]
-    let doc : Node := .elem 0 none [.elem 1 (some ⟨⟨"", "a"⟩, false, []⟩) [.text 2 " ", .elem 3 (some ⟨⟨"", "b"⟩, false, []⟩) [], .text 4 "x"]]
+    let doc : Node := .elem 0 none [.elem 1 (some ⟨⟨"", "a"⟩, false, [], []⟩) [.text 2 " ", .elem 3 (some ⟨⟨"", "b"⟩, false, [], []⟩) [], .text 4 "x"]]
     let e : Expr := .count (.step (.step .root .child .anyElem) .child .node)
-    (e.eval sp ⟨⟨doc, []⟩, 1, 1⟩).map (Value.toStr sp) = some "2"
-      ∧ (e.eval noStrip ⟨⟨doc, []⟩, 1, 1⟩).map (Value.toStr noStrip) = some "3"
-      ∧ (e.eval noStrip ⟨⟨doc.strip sp, []⟩, 1, 1⟩).map (Value.toStr noStrip) = some "2" := by
+    (e.eval sp ⟨.node ⟨doc, []⟩, 1, 1, []⟩).map (Value.toStr sp) = some "2"
+      ∧ (e.eval noStrip ⟨.node ⟨doc, []⟩, 1, 1, []⟩).map (Value.toStr noStrip) = some "3"
+      ∧ (e.eval noStrip ⟨.node ⟨doc.strip sp, []⟩, 1, 1, []⟩).map (Value.toStr noStrip) = some "2" := by
   decide
 
 /-- An observation path that forgets to ask breaks the simulation: with a `node()` test that accepts
@@ -165,38 +165,161 @@ stripped text (as `testNode` would without its `shouldStripSourceNode` call) the
 count on the stripped tree.  This is the witness the correspondence run replays when the call is removed. -/
 theorem forgetful_nodeTest_counterexample :
     let sp : StripFn := stripOf [⟨"", "a", true⟩]
-    let doc : Node := .elem 0 none [.elem 1 (some ⟨⟨"", "a"⟩, false, []⟩) [.text 2 " ", .elem 3 (some ⟨⟨"", "b"⟩, false, []⟩) []]]
-    let kids := (Loc.children ⟨.elem 1 (some ⟨⟨"", "a"⟩, false, []⟩) [.text 2 " ", .elem 3 (some ⟨⟨"", "b"⟩, false, []⟩) []], [⟨[], 0, none, []⟩]⟩)
-    (kids.filter (Test.accepts noStrip .node)).length ≠ ((Loc.children (Loc.strip sp ⟨.elem 1 (some ⟨⟨"", "a"⟩, false, []⟩) [.text 2 " ", .elem 3 (some ⟨⟨"", "b"⟩, false, []⟩) []], [⟨[], 0, none, []⟩]⟩)).filter (Test.accepts noStrip .node)).length
-      ∧ (kids.filter (Test.accepts sp .node)).length = ((Loc.children (Loc.strip sp ⟨.elem 1 (some ⟨⟨"", "a"⟩, false, []⟩) [.text 2 " ", .elem 3 (some ⟨⟨"", "b"⟩, false, []⟩) []], [⟨[], 0, none, []⟩]⟩)).filter (Test.accepts noStrip .node)).length
+    let doc : Node := .elem 0 none [.elem 1 (some ⟨⟨"", "a"⟩, false, [], []⟩) [.text 2 " ", .elem 3 (some ⟨⟨"", "b"⟩, false, [], []⟩) []]]
+    let kids := (Loc.children ⟨.elem 1 (some ⟨⟨"", "a"⟩, false, [], []⟩) [.text 2 " ", .elem 3 (some ⟨⟨"", "b"⟩, false, [], []⟩) []], [⟨[], 0, none, []⟩]⟩)
+    (kids.filter (Test.accepts noStrip .node)).length ≠ ((Loc.children (Loc.strip sp ⟨.elem 1 (some ⟨⟨"", "a"⟩, false, [], []⟩) [.text 2 " ", .elem 3 (some ⟨⟨"", "b"⟩, false, [], []⟩) []], [⟨[], 0, none, []⟩]⟩)).filter (Test.accepts noStrip .node)).length
+      ∧ (kids.filter (Test.accepts sp .node)).length = ((Loc.children (Loc.strip sp ⟨.elem 1 (some ⟨⟨"", "a"⟩, false, [], []⟩) [.text 2 " ", .elem 3 (some ⟨⟨"", "b"⟩, false, [], []⟩) []], [⟨[], 0, none, []⟩]⟩)).filter (Test.accepts noStrip .node)).length
       ∧ doc.id = 0 := by
   decide
+
+/-! ## the interactions the property names, one by one -/
+
+/-- **child, descendant, following(-sibling), preceding(-sibling), parent, ancestor, self axes** (all eleven): the
+nodes of the axis on `D` that are not stripped, carried over, are exactly the axis on `D'`. -/
+theorem axes_simulation (sp : StripFn) (ax : Axis) (l : Loc) (h : l.stripped sp = false) :
+    ((ax.locs l).filter (fun x => !x.stripped sp)).map (Loc.strip sp) = ax.locs (l.strip sp) :=
+  axis_strip sp ax l h
+
+/-- **all axes from every kind of context node, attribute and namespace nodes included** (`attribute::` and
+`namespace::` from an element; parent, ancestor(-or-self), following, preceding, self from an attribute or
+namespace node): the unstripped members on `D`, carried over, are the axis on `D'`.  Attribute and namespace nodes
+are members of node-sets (`XNode.attr`; a namespace node is the declaring `xmlns` attribute node, as in the
+library, nearer declarations shadowing outer ones), ordered by their document-order index between their element
+and its children, so unions mixing them with elements and text are covered by `strip_simulation`
+(`Expr.union`, `docOrder`). -/
+theorem axes_with_attributes_simulation (sp : StripFn) (ax : Axis) (x : XNode) (h : x.stripped sp = false) :
+    ((ax.xlocs x).filter (fun y => !y.stripped sp)).map (XNode.strip sp) = ax.xlocs (x.strip sp) :=
+  xaxis_strip sp ax x h
+
+/-- non-vacuity: `<a n="1"> <b m="2"/>x</a>`, strip `a`: `count(/a/node() | /a/@* | /a/b/@*)` is 4 with the
+declaration and on the stripped tree (5 without stripping); `string(/a/b/@m/..)`… the parent of an attribute. -/
+example :
+    let sp : StripFn := stripOf [⟨"", "a", true⟩]
+    let doc : Node := .elem 0 none [.elem 1 (some ⟨⟨"", "a"⟩, false, [(2, ⟨"", "n"⟩, "1")], []⟩)
+      [.text 3 " ", .elem 4 (some ⟨⟨"", "b"⟩, false, [(5, ⟨"", "m"⟩, "2")], []⟩) [], .text 6 "x"]]
+    let a : Expr := .step .root .child .anyElem
+    let e : Expr := .count (.union (.step a .child .node) (.union (.step a .attrAxis .anyElem)
+      (.step (.step a .child .anyElem) .attrAxis .anyElem)))
+    let par : Expr := .localName (.step (.step (.step a .child .anyElem) .attrAxis .anyElem) .parent .node)
+    (e.eval sp ⟨.node ⟨doc, []⟩, 1, 1, []⟩).map (Value.toStr sp) = some "4"
+      ∧ (e.eval noStrip ⟨.node ⟨doc.strip sp, []⟩, 1, 1, []⟩).map (Value.toStr noStrip) = some "4"
+      ∧ (e.eval noStrip ⟨.node ⟨doc, []⟩, 1, 1, []⟩).map (Value.toStr noStrip) = some "5"
+      ∧ (par.eval sp ⟨.node ⟨doc, []⟩, 1, 1, []⟩).map (Value.toStr sp) = some "b" := by
+  decide
+
+/-- non-vacuity for namespace nodes: `<a xmlns:p="u"> <b xmlns:p="v"/></a>` (plus the implicit `xml` on `a`), strip `a`:
+`b` has two namespace nodes in scope (`xml` from `a`, the nearer `p`), the parent of the last one is `b`, of the
+first one `a`; `count(/a/b/namespace::*[1]/following::node())` is 1 on both sides (2 without stripping). -/
+example :
+    let sp : StripFn := stripOf [⟨"", "a", true⟩]
+    let doc : Node := .elem 0 none [.elem 1 (some ⟨⟨"", "a"⟩, false, [], [(2, "xml", "x"), (3, "p", "u")]⟩)
+      [.text 4 " ", .elem 5 (some ⟨⟨"", "b"⟩, false, [], [(6, "p", "v")]⟩) []]]
+    let b : Expr := .step (.step .root .child .anyElem) .child .anyElem
+    let nsb : Expr := .step b .nsAxis .anyElem
+    let fol : Expr := .count (.step (.stepP b .nsAxis .anyElem (.num 1)) .following .node)
+    ((Expr.count nsb).eval sp ⟨.node ⟨doc, []⟩, 1, 1, []⟩).map (Value.toStr sp) = some "2"
+      ∧ ((Expr.localName (.step (.filter nsb .last) .parent .node)).eval sp ⟨.node ⟨doc, []⟩, 1, 1, []⟩).map
+          (Value.toStr sp) = some "b"
+      ∧ ((Expr.localName (.step (.filter nsb (.num 1)) .parent .node)).eval sp ⟨.node ⟨doc, []⟩, 1, 1, []⟩).map
+          (Value.toStr sp) = some "a"
+      ∧ (fol.eval sp ⟨.node ⟨doc, []⟩, 1, 1, []⟩).map (Value.toStr sp) = some "1"
+      ∧ (fol.eval noStrip ⟨.node ⟨doc.strip sp, []⟩, 1, 1, []⟩).map (Value.toStr noStrip) = some "1"
+      ∧ (fol.eval noStrip ⟨.node ⟨doc, []⟩, 1, 1, []⟩).map (Value.toStr noStrip) = some "2" := by
+  decide
+
+/-- **node tests**: the strip-aware test on `D` = "not stripped" and the plain test on `D'` (this is where
+`text()` and `node()` ask; name tests, `*`, `comment()`, `processing-instruction()` never accept text). -/
+theorem node_test_simulation (sp : StripFn) (t : Test) (l : Loc) :
+    t.accepts sp l = (!l.stripped sp && t.accepts noStrip (l.strip sp)) :=
+  accepts_strip sp t l
+
+/-- **position() and last()**: a predicate is evaluated for corresponding candidates at the same proximity
+position and with the same context size (so `[1]`, `[last()]`, `[position() < last()]` select corresponding
+nodes). -/
+theorem position_last_simulation (sp : StripFn) (p : Expr) (vars : List Value) (hv : ∀ v ∈ vars, Value.ok sp v)
+    (cands : List XNode) (hc : ∀ y ∈ cands, y.stripped sp = false) :
+    (filterPred (predFn vars (p.eval sp)) cands).map (List.map (XNode.strip sp))
+      = filterPred (predFn (vars.map (Value.strip sp)) (p.eval noStrip)) (cands.map (XNode.strip sp)) :=
+  filterPred_map sp _ _ cands (fun y hy j n =>
+    predFn_sim sp p vars hv (fun c h => (eval_sim sp p c h).1) y (hc y hy) j n)
+
+/-- **variables holding node-sets** (`<xsl:variable name="x" select="bind"/>` … `$x`): the binding is carried like
+every value (`Expr.letIn` / `Expr.var` are part of `strip_simulation`; the context invariant `Ctx.ok` says the
+variables in scope hold no stripped node, which every evaluation result satisfies).  The instance spelled out:
+evaluating `body` with `$0 := bind` corresponds. -/
+theorem variable_binding_simulation (sp : StripFn) (bind body : Expr) (c : Ctx) (hc : c.ok sp) :
+    ((Expr.letIn bind body).eval sp c).map (Value.strip sp) = (Expr.letIn bind body).eval noStrip (c.strip sp) :=
+  strip_simulation sp _ c hc
+
+/-- **variables holding result tree fragments** built by copying (`<xsl:variable name="r"><xsl:copy-of
+select="e"/></xsl:variable>`): the fragment's events — hence `xsl:copy-of select="$r"`, `string($r)`,
+`string-length($r)` — are the same on both sides. -/
+theorem rtf_variable_simulation (sp : StripFn) (e : Expr) (c : Ctx) (hc : c.ok sp) :
+    copyOf sp (e.eval sp c) = copyOf noStrip (e.eval noStrip (c.strip sp)) := by
+  rw [← strip_simulation sp e c hc]
+  exact copyOf_strip sp _
+
+/-- **count()** -/
+theorem count_simulation (sp : StripFn) (e : Expr) (c : Ctx) (hc : c.ok sp) :
+    (Expr.count e).eval sp c = (Expr.count e).eval noStrip (c.strip sp) := by
+  have h := strip_simulation sp (.count e) c hc
+  cases hv : (Expr.count e).eval sp c with
+  | none => rw [hv] at h; simpa using h
+  | some v =>
+    rw [hv] at h
+    simp only [Expr.eval] at hv
+    cases hb : e.eval sp c with
+    | none => simp [hb, countV] at hv
+    | some w =>
+      cases w <;> simp [hb, countV] at hv
+      subst hv
+      simpa using h
+
+/-- **xsl:value-of select="/"** (and of `.` at the root): the string-value of the document. -/
+theorem value_of_root_simulation (sp : StripFn) (doc : Node) :
+    ((Expr.string .root).eval sp ⟨.node ⟨doc, []⟩, 1, 1, []⟩).map (Value.toStr sp)
+      = ((Expr.string .root).eval noStrip ⟨.node ⟨doc.strip sp, []⟩, 1, 1, []⟩).map (Value.toStr noStrip) :=
+  strip_simulation_string sp _ ⟨.node ⟨doc, []⟩, 1, 1, []⟩ ⟨rfl, by simp⟩
+
+/-- **generate-id() stability**: a node keeps its identity (document-order index) in `D'`, so two nodes have the
+same generated id on one side iff on the other; `generate-id(a) = generate-id(b)` comparisons are unaffected. -/
+theorem generate_id_stable (sp : StripFn) (x y : Loc) :
+    ((x.strip sp).id = (y.strip sp).id) ↔ (x.id = y.id) := by
+  rw [Loc.strip_id, Loc.strip_id]
+
+/-- **match patterns with positional predicates and multi-step patterns** (`a/node()[2]`, `text()[last()]`,
+`*[not(text())]`, and count/from/key patterns of that shape), read as the expression they abbreviate: `x` is
+selected on `D` iff it is on `D'`.  (That the library's matcher agrees with the expression reading is C09.) -/
+theorem pattern_simulation (sp : StripFn) (sel : Expr) (root : Loc) (x : XNode) (hr : root.stripped sp = false) :
+    patternSelects sp sel root x = patternSelects noStrip sel (root.strip sp) (x.strip sp) :=
+  patternSelects_strip sp sel root x hr
 
 /-! ## XSLT-level observation paths -/
 
 /-- `xsl:apply-templates` without `select` (and the built-in rules) process `child::node()`: the list of
 nodes processed — hence `position()`/`last()` inside the templates — corresponds. -/
-theorem apply_templates_default_children (sp : StripFn) (c : Ctx) (hc : c.node.stripped sp = false) :
+theorem apply_templates_default_children (sp : StripFn) (c : Ctx) (hc : c.ok sp) :
     ((Expr.step .self .child .node).eval sp c).map (Value.strip sp)
       = (Expr.step .self .child .node).eval noStrip (c.strip sp) :=
   strip_simulation sp _ c hc
 
 /-- `xsl:for-each select="e"` / `xsl:apply-templates select="e"`: the contexts (node, position, size) in which the
 body / the templates are instantiated correspond one to one. -/
-theorem select_contexts_simulation (sp : StripFn) (e : Expr) (c : Ctx) (hc : c.node.stripped sp = false) :
-    (contextsOf (e.eval sp c)).map (List.map (Ctx.strip sp)) = contextsOf (e.eval noStrip (c.strip sp)) := by
+theorem select_contexts_simulation (sp : StripFn) (e : Expr) (c : Ctx) (hc : c.ok sp) :
+    (contextsOf c.vars (e.eval sp c)).map (List.map (Ctx.strip sp))
+      = contextsOf (c.strip sp).vars (e.eval noStrip (c.strip sp)) := by
   rw [← strip_simulation sp e c hc]
-  exact contextsOf_strip sp _
+  exact contextsOf_strip sp c.vars _
 
 /-- `xsl:sort select="key"`: the list of sort keys of the selected nodes is *equal* on both sides (so any stable
 sort by them yields corresponding orders). -/
-theorem sort_keys_simulation (sp : StripFn) (sel key : Expr) (c : Ctx) (hc : c.node.stripped sp = false) :
+theorem sort_keys_simulation (sp : StripFn) (sel key : Expr) (c : Ctx) (hc : c.ok sp) :
     sortKeys sp sel key c = sortKeys noStrip sel key (c.strip sp) :=
   sortKeys_strip sp sel key c hc
 
 /-- `xsl:copy-of select="e"`: the events sent to the result tree (`cloneToResultTree` asks for every text
 node it meets) are those of copying from the stripped document. -/
-theorem copy_of_simulation (sp : StripFn) (e : Expr) (c : Ctx) (hc : c.node.stripped sp = false) :
+theorem copy_of_simulation (sp : StripFn) (e : Expr) (c : Ctx) (hc : c.ok sp) :
     copyOf sp (e.eval sp c) = copyOf noStrip (e.eval noStrip (c.strip sp)) := by
   rw [← strip_simulation sp e c hc]
   exact copyOf_strip sp _
@@ -204,7 +327,7 @@ theorem copy_of_simulation (sp : StripFn) (e : Expr) (c : Ctx) (hc : c.node.stri
 /-- `key()`: the table built by walking every node of `D` (match pattern and `use` evaluated strip-aware)
 answers every lookup like the table built on `D'`. -/
 theorem key_simulation (sp : StripFn) (k : KeyDecl) (root : Loc) (s : String) (h : root.stripped sp = false) :
-    (keyLookup sp k root s).map (List.map (Loc.strip sp)) = keyLookup noStrip k (root.strip sp) s :=
+    (keyLookup sp k root s).map (List.map (XNode.strip sp)) = keyLookup noStrip k (root.strip sp) s :=
   keyLookup_strip sp k root s h
 
 /-- non-vacuity for copy-of and keys: `<a> <b> </b>x</a>`, strip `a`; copying `/a` yields no whitespace
@@ -212,20 +335,20 @@ event for the first text but keeps the one inside `b`; `key(match=text(), use=lo
 under `a`. -/
 example :
     let sp : StripFn := stripOf [⟨"", "a", true⟩]
-    let doc : Node := .elem 0 none [.elem 1 (some ⟨⟨"", "a"⟩, false, []⟩)
-      [.text 2 " ", .elem 3 (some ⟨⟨"", "b"⟩, false, []⟩) [.text 4 " "], .text 5 "x"]]
-    copyOf sp ((Expr.step .root .child .anyElem).eval sp ⟨⟨doc, []⟩, 1, 1⟩)
-        = some [.startElement (some ⟨⟨"", "a"⟩, false, []⟩), .startElement (some ⟨⟨"", "b"⟩, false, []⟩), .characters " ", .endElement,
+    let doc : Node := .elem 0 none [.elem 1 (some ⟨⟨"", "a"⟩, false, [], []⟩)
+      [.text 2 " ", .elem 3 (some ⟨⟨"", "b"⟩, false, [], []⟩) [.text 4 " "], .text 5 "x"]]
+    copyOf sp ((Expr.step .root .child .anyElem).eval sp ⟨.node ⟨doc, []⟩, 1, 1, []⟩)
+        = some [.startElement (some ⟨⟨"", "a"⟩, false, [], []⟩), .startElement (some ⟨⟨"", "b"⟩, false, [], []⟩), .characters " ", .endElement,
                 .characters "x", .endElement]
-      ∧ (keyLookup sp ⟨.text, .localName (.step .self .parent .node)⟩ ⟨doc, []⟩ "a").map List.length = some 1
-      ∧ (keyLookup noStrip ⟨.text, .localName (.step .self .parent .node)⟩ ⟨doc, []⟩ "a").map List.length = some 2 := by
+      ∧ (keyLookup sp ⟨testPat .text, .localName (.step .self .parent .node)⟩ ⟨doc, []⟩ "a").map List.length = some 1
+      ∧ (keyLookup noStrip ⟨testPat .text, .localName (.step .self .parent .node)⟩ ⟨doc, []⟩ "a").map List.length = some 2 := by
   decide +kernel
 
 /-- `xsl:number level="single"` and `level="multiple"` (with or without `from`; an ancestor matching `from` ends
 the search for both levels, the context node is not tested): the ancestors collected by
 `getMatchingAncestors` correspond and each one's number — itself plus the preceding siblings `getPreviousNode`
 finds matching `count` — is the same on `D` asking `sp` and on `D'`. -/
-theorem number_single_multiple_simulation (sp : StripFn) (countT : Test) (fromT : Option Test) (single : Bool)
+theorem number_single_multiple_simulation (sp : StripFn) (countT : Pat) (fromT : Option Pat) (single : Bool)
     (l : Loc) (h : l.stripped sp = false) :
     numberList sp countT fromT single l = numberList noStrip countT fromT single (l.strip sp) :=
   numberList_strip sp countT fromT single l h
@@ -235,14 +358,14 @@ then `getPreviousNode` iterated by `countNode`; previous sibling → dive to its
 node walked over is tested against `from`, the context node excepted) computes the Recommendation's count — the
 nodes matching `count` among the current node and the nodes before it in document order, after the first one
 before it that matches `from` — for every tree, provided the fuel covers the nodes before `l`. -/
-theorem number_any_loop_eq_count (sp : StripFn) (countT : Test) (fromT : Option Test) (fuel : Nat) (l : Loc)
+theorem number_any_loop_eq_count (sp : StripFn) (countT : Pat) (fromT : Option Pat) (fuel : Nat) (l : Loc)
     (h : l.before.length + 1 < fuel) :
     numberAny sp countT fromT fuel l = numberAnySpec sp countT fromT l :=
   numberAny_eq_spec sp countT fromT fuel l h
 
 /-- … and that count is the same on `D` asking `sp` and on `D'` (a stripped node matches neither pattern, so it
 neither counts nor ends the search). -/
-theorem number_any_count_simulation (sp : StripFn) (countT : Test) (fromT : Option Test) (l : Loc)
+theorem number_any_count_simulation (sp : StripFn) (countT : Pat) (fromT : Option Pat) (l : Loc)
     (h : l.stripped sp = false) :
     numberAnySpec sp countT fromT l = numberAnySpec noStrip countT fromT (l.strip sp) :=
   numberAnySpec_strip sp countT fromT l h
@@ -251,25 +374,34 @@ theorem number_any_count_simulation (sp : StripFn) (countT : Test) (fromT : Opti
 walk tested `from` only while climbing and a stripped text node could decide which elements got tested — the
 former `number_any_from_counterexample`): the walk over the physical tree `D`, which does step on stripped text
 nodes, yields the number the walk over `D'` yields. -/
-theorem number_any_simulation (sp : StripFn) (countT : Test) (fromT : Option Test) (fuel fuel' : Nat) (l : Loc)
+theorem number_any_simulation (sp : StripFn) (countT : Pat) (fromT : Option Pat) (fuel fuel' : Nat) (l : Loc)
     (h : l.stripped sp = false) (hf : l.before.length + 1 < fuel) (hf' : (l.strip sp).before.length + 1 < fuel') :
     numberAny sp countT fromT fuel l = numberAny noStrip countT fromT fuel' (l.strip sp) := by
   rw [numberAny_eq_spec sp countT fromT fuel l hf, numberAny_eq_spec noStrip countT fromT fuel' _ hf']
   exact numberAnySpec_strip sp countT fromT l h
+
+/-- **count / from / key patterns with predicates or several steps**: any expression of the fragment read as a
+pattern (`exprPat sel`: `x` matches iff it is selected by `sel` from the document node of its tree) is a `Pat`, so
+`key_simulation`, `number_any_simulation`, `number_any_loop_eq_count` and `number_single_multiple_simulation` hold
+for it; this is the law that makes it one (a stripped node never matches; otherwise matching on `D` asking `sp` =
+matching on `D'`). -/
+theorem multi_step_pattern_law (sel : Expr) (sp : StripFn) (x : Loc) :
+    (exprPat sel).m sp x = (!x.stripped sp && (exprPat sel).m noStrip (x.strip sp)) :=
+  (exprPat sel).strip sp x
 
 /-- non-vacuity, on the witness that used to separate `D` and `D'`: `<r><x>x</x><b><a> </a></b>y</r>`,
 `strip-space elements="a"`, `<xsl:number level="any" count="text()" from="a"/>` at the text `y` is 1 on both
 sides now (the element `a` ends the search whether or not the stripped text is inside it); without `from`, 2. -/
 example :
     let sp : StripFn := stripOf [⟨"", "a", true⟩]
-    let xN : Node := .elem 2 (some ⟨⟨"", "x"⟩, false, []⟩) [.text 3 "x"]
-    let bN : Node := .elem 4 (some ⟨⟨"", "b"⟩, false, []⟩) [.elem 5 (some ⟨⟨"", "a"⟩, false, []⟩) [.text 6 " "]]
-    let y : Loc := ⟨.text 7 "y", [⟨[bN, xN], 1, some ⟨⟨"", "r"⟩, false, []⟩, []⟩, ⟨[], 0, none, []⟩]⟩
+    let xN : Node := .elem 2 (some ⟨⟨"", "x"⟩, false, [], []⟩) [.text 3 "x"]
+    let bN : Node := .elem 4 (some ⟨⟨"", "b"⟩, false, [], []⟩) [.elem 5 (some ⟨⟨"", "a"⟩, false, [], []⟩) [.text 6 " "]]
+    let y : Loc := ⟨.text 7 "y", [⟨[bN, xN], 1, some ⟨⟨"", "r"⟩, false, [], []⟩, []⟩, ⟨[], 0, none, []⟩]⟩
     y.stripped sp = false
-      ∧ numberAny sp .text (some (.name ⟨"", "a"⟩)) 20 y = 1
-      ∧ numberAny noStrip .text (some (.name ⟨"", "a"⟩)) 20 (y.strip sp) = 1
-      ∧ numberAny sp .text none 20 y = 2
-      ∧ numberAny noStrip .text none 20 (y.strip sp) = 2 := by
+      ∧ numberAny sp (testPat .text) (some (testPat (.name ⟨"", "a"⟩))) 20 y = 1
+      ∧ numberAny noStrip (testPat .text) (some (testPat (.name ⟨"", "a"⟩))) 20 (y.strip sp) = 1
+      ∧ numberAny sp (testPat .text) none 20 y = 2
+      ∧ numberAny noStrip (testPat .text) none 20 (y.strip sp) = 2 := by
   decide
 
 /-! ## tie to the source text (regenerated by `translate/c13_sites.py` on every run) -/
